@@ -67,43 +67,44 @@ def uintOfCbor? (bits : Nat) : Cbor → Option Nat
   | .nint n => if n < 2 ^ bits then some (2 ^ bits - 1 - n) else none
   | _ => none
 
+/-- strictly ascending digests, checked on adjacent elements
+(`assertions.windows(2).all(|w| w[0].digest() < w[1].digest())`) -/
+def ascAdj : List Env → Bool
+  | [] => true
+  | [_] => true
+  | a :: b :: rest => decide (a.digest.val < b.digest.val) && ascAdj (b :: rest)
+
 section
 variable (h : Hash)
 
-/-- `EncryptedMessage::from_untagged_cbor` followed by `new_with_encrypted` -/
+/-- `EncryptedMessage::from_untagged_cbor`, the check that the element re-encodes to
+itself, and `new_with_encrypted` -/
 def decodeEncrypted (item : Cbor) : Res Env :=
   match item with
-  | .array (.bytes ct :: .bytes nonce :: .bytes auth :: rest) =>
+  | .array [.bytes ct, .bytes nonce, .bytes auth, .bytes aad] =>
     if nonce.length != 12 then .err "dep:nonce-size"
     else if auth.length != 16 then .err "dep:auth-size"
+    else if aad.isEmpty then .err "non-canonical-encrypted"
     else
-      let aad? : Option Bytes := match rest with
-        | [] => some []
-        | .bytes a :: _ => some a
-        | _ => none
-      match aad? with
-      | none => .err "dep:WrongType"
-      | some aad =>
-        let m : EncMsg := { ciphertext := ct, nonce := nonce, auth := auth, aad := aad }
-        match m.optDigest with
-        | some d => .ok (.encrypted m d)
-        | none => .err "MissingDigest"
+      let m : EncMsg := { ciphertext := ct, nonce := nonce, auth := auth, aad := aad }
+      match m.optDigest with
+      | some d => .ok (.encrypted m d)
+      | none => .err "MissingDigest"
   | .array _ => .err "dep:encrypted-shape"
   | _ => .err "dep:encrypted-not-array"
 
-/-- `Compressed::from_untagged_cbor` followed by `new_with_compressed` -/
+/-- `Compressed::from_untagged_cbor`, the check that the element re-encodes to itself,
+and `new_with_compressed` -/
 def decodeCompressed (item : Cbor) : Res Env :=
   match item with
-  | .array [ck, sz, .bytes _] =>
-    match uintOfCbor? 32 ck, uintOfCbor? 64 sz with
-    | some _, some _ => .err "MissingDigest"       -- (or the size check fails first: an error either way)
-    | _, _ => .err "dep:WrongType"
-  | .array [ck, sz, .bytes data, dg] =>
-    match uintOfCbor? 32 ck, uintOfCbor? 64 sz, digestOfCbor? dg with
-    | some c, some s, some d =>
-      if data.length > s then .err "dep:compressed-size"
+  | .array [.uint c, .uint s, .bytes data, dg] =>
+    match digestOfCbor? dg with
+    | some d =>
+      if !(c < 2 ^ 32) || !(s < 2 ^ 64) then .err "dep:OutOfRange"
+      else if data.length > s then .err "dep:compressed-size"
       else .ok (.compressed { checksum := c, size := s, data := data } d)
-    | _, _, _ => .err "dep:WrongType"
+    | none => .err "dep:WrongType"
+  | .array _ => .err "dep:compressed-shape"
   | _ => .err "dep:compressed-shape"
 
 mutual
@@ -131,7 +132,7 @@ def envOfCbor : Cbor → Res Env
       match envOfCbor x with
       | .ok s =>
         match envOfCborList rest with
-        | .ok as => newNode h s as
+        | .ok as => if ascAdj as then newNode h s as else .err "assertions-not-ascending"
         | .err e => .err e
         | .panic p => .panic p
       | .err e => .err e
